@@ -11,6 +11,9 @@ def contract(rng_o, rng_n, has_deadline):
     ensures
     /*L*/     cap_post(old, %(o)s, new, %(n)s, res@, false),   // [C02,C09,C10]
     /*S*/     cap_post(old, %(o)s, new, %(n)s, res@, true),    // [C11]
+    // C09, last sentence: a pure insertion that is followed by equal items sits at its latest position (its first inserted item
+    // differs from the first equal item after it: `new[ins.new_index] == old[eq.old_index]` is false)
+    ins_late(rel_of(old, new), res@),   // [C09]
     /*L*/     (%(dln)s && alg != Algorithm::Patience) ==> cap_eqs(old, %(o)s, new, %(n)s, res@, false)
     /*L*/         == lcs_len(old, %(o)s.start as int, %(o)s.end as int, new, %(n)s.start as int, %(n)s.end as int),   // [C03]
     /*L*/     // C02: identical inputs give only Equal ops (none for two empty inputs) - for the minimal algorithms without deadline
@@ -90,6 +93,13 @@ proof {
     assert(xs.ok && xs.oc == oe && xs.nc == ne);
     assert(evs_of(cp.ops_spec()) == rp.em_());
     assert(xs.eqs == seg_eqs(rel, lvl, s, os, ns, oe, ne));   // [C03]
+    // C09, last sentence: every Insert of the compacted script is stuck (Compact::done); the Replace adapter, driven by such a
+    // script, forwards only pure insertions that sit at their latest position (Replace::c9)
+    assert(ins_stuck(rel, ops1));   // [C09]
+    lemma_ins_stuck_evs(rel, ops1);
+    assert(rp.hist_() =~= evs_of(ops1).push(Ev::Finish));
+    assert(rp.late_ok());   // [C09]
+    lemma_ev_late_ops(rel, cp.ops_spec());
     if deadline is None && alg != Algorithm::Patience && oe - os == ne - ns
         && (forall|i: int| 0 <= i < oe - os ==> #[trigger] relk(rel, os, ns, i)) {
         lemma_lcs_prefix(old, os, oe, new, ns, ne, oe - os);
